@@ -67,6 +67,8 @@ pub struct ReqOpts {
 }
 
 thread_local! {
+    /// when set, some noise records carry content + padding of 65536 bytes and more
+    pub static BIG_NOISE: std::cell::Cell<bool> = const { std::cell::Cell::new(false) };
     /// when set, noise records never are BeginRequest records (connection-level drivers need the request
     /// boundaries to be exactly the generated requests)
     pub static NO_BEGIN_NOISE: std::cell::Cell<bool> = const { std::cell::Cell::new(false) };
@@ -77,6 +79,14 @@ pub fn noise_record(out: &mut Vec<u8>, r: &mut StdRng, own: u16) {
     let plen = pick(r, &[0usize, 0, 1, 7, 8, 255]);
     let mut kind = r.gen_range(0..9);
     if NO_BEGIN_NOISE.with(std::cell::Cell::get) && (kind == 2 || kind == 8) { kind = 0; }
+    if BIG_NOISE.with(std::cell::Cell::get) && r.gen_bool(0.3) {
+        // a skipped record whose content and padding lengths are both near their maxima
+        let (clen, plen) = pick(r, &[(65535usize, 255usize), (65300, 236), (65535, 1), (65281, 255)]);
+        let b = rand_bytes(r, clen);
+        let (ty, id) = pick(r, &[(200u8, 0u16), (5, own.wrapping_add(3).max(1)), (8, own.wrapping_add(3).max(1)), (2, own.wrapping_add(2).max(1)), (6, own)]);
+        record(out, r, ty, id, &b, plen);
+        return;
+    }
     match kind {
         0 => { // GetValues with known/unknown/repeated names, values, maybe a trailing partial pair
             let mut body = Vec::new();
